@@ -911,7 +911,8 @@ func (lunar *Lunar) GetTimePositionYinGuiDesc() string {
 }
 
 func (lunar *Lunar) GetTimePositionFu() string {
-	return LunarUtil.POSITION_FU[lunar.timeGanIndex+1]
+	// 福神方位默认流派2，与 GetDayPositionFu、LunarTime.GetPositionFu 一致
+	return LunarUtil.POSITION_FU_2[lunar.timeGanIndex+1]
 }
 
 func (lunar *Lunar) GetTimePositionFuDesc() string {
